@@ -26,7 +26,10 @@ PROP = {'title': 'Safe API is total: no UB, crash or hang; failure only via opti
                            'harness/C01_fs.cpp',
                            'harness/C01_parse.cpp',
                            'harness/C01_env.cpp',
-                           'harness/C01_stream.cpp'],
+                           'harness/C01_stream.cpp',
+                           'harness/C01_more.cpp',
+                           'harness/C01_more2.cpp',
+                           'harness/C01_more3.cpp'],
                'libs': ['core', 'filesystem', 'options'],
                'flavour': 'asan'}],
  'deadline': {'quick': 300, 'thorough': 1200},
